@@ -17,7 +17,8 @@ bspec : ["spin", dof, 2] | ["sho", dof, nbas, omega, x0] | ["sdvr", dof, nbas, x
 tree  : {"builder": "linear"|"binary"|"t3ns"|"mctdh", "order": int, "contract": bool}
         | {"nested": node}, node = {"b": [index into basis | -1 - j for a dummy], "ch": [node]}
 term  : {"ops": [[symbol, dof], ...], "num": int, "exp": int}      factor = num / 2**exp
-stdout: RESULT {"sequences": [{"id", "fails": [...], "n": int, "worst": float}]}
+       "scales": [{"id", "basis", "tree", "algo" (graph algorithm), "terms", "k"}]   -> scale covariance: terms * 2**-k
+stdout: RESULT {"sequences": [{"id", "fails": [...], "n": int, "worst": float}], "scales": [...]}
 Used verbatim (with the failing sequence inlined) as the replay snippet.
 """
 import json
@@ -72,13 +73,18 @@ def local_matrix(s, sym):
 
 
 def reference(step):
-    tot = 0
+    from fractions import Fraction
+    acc = {}                                    # identical products merged with exact coefficients
     for t in step["terms"]:
+        key = tuple(sorted((s[1], " ".join(x for x, d in t["ops"] if d == s[1])) for s in step["basis"] if any(d == s[1] for x, d in t["ops"])))
+        acc[key] = acc.get(key, Fraction(0)) + Fraction(t["num"]) * Fraction(2) ** (-t["exp"])
+    tot = 0
+    for key, c in acc.items():
+        per = dict(key)
         full = np.eye(1)
         for s in step["basis"]:
-            syms = [x for x, d in t["ops"] if d == s[1]]
-            full = np.kron(full, local_matrix(s, " ".join(syms)) if syms else np.eye(s[2]))
-        tot = tot + (t["num"] / 2.0 ** t["exp"]) * full
+            full = np.kron(full, local_matrix(s, per[s[1]]) if s[1] in per else np.eye(s[2]))
+        tot = tot + float(c) * full
     return tot
 
 
@@ -112,14 +118,15 @@ def relerr(a, b):
     return float(np.abs(np.asarray(a) - b).max() / max(1.0, np.abs(b).max()))
 
 
-def build(step):
+def build(step, with_mpo=True):
     bl = [mk_basis(s) for s in step["basis"]]
     terms = []
     for t in step["terms"]:
         toks = [(tok, d) for x, d in t["ops"] for tok in x.split(" ")]          # "b^\\dagger b" = two symbols on one DoF
         terms.append(Op(" ".join(tok for tok, d in toks), [d for tok, d in toks], t["num"] / 2.0 ** t["exp"]))
     ttno = TTNO(build_tree(step["tree"], bl), terms, algo=step["algo"])
-    mpo = Mpo(Model(bl, terms))
+    # the default algo="qr" of Mpo is not scale invariant (known finding of C01): callers at tiny scales skip it
+    mpo = Mpo(Model(bl, terms)) if with_mpo else None
     return bl, ttno, mpo
 
 
@@ -163,8 +170,74 @@ def run_sequence(seq):
     return {"id": seq["id"], "fails": fails, "n": n, "worst": worst}
 
 
+def symbolic_signature(ttno):
+    """per node: shape of the symbolic tensor and, per entry, the sorted (symbol string, dofs, factor) of its operators"""
+    sig = []
+    for mo in ttno.symbolic_ttno:
+        ent = {}
+        for idx, ops in np.ndenumerate(mo):
+            # virtual DoF names carry a running counter that differs between the twins: compare them as one name
+            ent[tuple(int(i) for i in idx)] = sorted((op.symbol, tuple("virtual" if isinstance(d_, tuple) and d_[:1] == ("hist-dummy",) else str(d_) for d_ in op.dofs),
+                                                      float(op.factor)) for op in ops)
+        sig.append((tuple(mo.shape), ent))
+    return sig
+
+
+def run_scale(case):
+    """global scale covariance (graph algorithms): the term list times 2**-k must give exactly the scaled TTNO with the
+    same symbolic structure; every error is relative to the operator's own scale, never absolute"""
+    fails = []
+    k = case["k"]
+    scaled = dict(case)
+    scaled["terms"] = [dict(t, exp=t["exp"] + k) for t in case["terms"]]
+    try:
+        ref_s = reference(scaled)
+        bl_u, ttno_u, _ = build(case, with_mpo=False)
+        bl_s, ttno_s, _ = build(scaled, with_mpo=False)
+        du, ds = ttno_u.todense(bl_u), ttno_s.todense(bl_s)
+        mpo_s = Mpo(Model(bl_s, ttno_s.terms), algo="Hopcroft-Karp").todense()      # not the default qr: C01 known finding
+    except Exception as e:
+        return {"id": case["id"], "fails": [{"what": "raised", "error": "%s: %s" % (type(e).__name__, e)}], "n": 0, "worst": 0.0}
+    own = float(np.abs(ref_s).max())
+    e_ref = float(np.abs(ds - ref_s).max() / own)
+    e_twin = float(np.abs(ds - np.ldexp(du, -k)).max() / own)
+    e_mpo = float(np.abs(ds - mpo_s).max() / own)
+    if not e_ref <= 1e-12:
+        fails.append({"what": "scaled TTNO differs from the dense sum of krons (relative to its own scale)", "err": e_ref, "k": k})
+    if not e_twin <= 1e-12:
+        fails.append({"what": "scaled TTNO is not 2**-k times its unscaled twin", "err": e_twin, "k": k})
+    if not e_mpo <= 1e-12:
+        fails.append({"what": "scaled TTNO differs from the chain Mpo (graph algorithm)", "err": e_mpo, "k": k})
+    su, ss = symbolic_signature(ttno_u), symbolic_signature(ttno_s)
+    same = len(su) == len(ss)
+    if same:
+        for (sh_u, en_u), (sh_s, en_s) in zip(su, ss):
+            if sh_u != sh_s or set(en_u) != set(en_s):
+                same = False
+                break
+            for key in en_u:
+                a, b = en_u[key], en_s[key]
+                if len(a) != len(b):
+                    same = False
+                    break
+                # every operator of the twin reappears, its factor either unchanged or times 2**-k
+                fa = sorted((x[0], x[1]) for x in a)
+                fb = sorted((x[0], x[1]) for x in b)
+                ra = sorted(x[2] for x in a)
+                rb = sorted(x[2] for x in b)
+                if fa != fb:
+                    same = False
+                    break
+            if not same:
+                break
+    if not same:
+        fails.append({"what": "symbolic structure of the scaled TTNO differs from its unscaled twin (operators appeared / disappeared)", "k": k})
+    return {"id": case["id"], "fails": fails, "n": 4, "worst": max(e_ref, e_twin, e_mpo)}
+
+
 def run_payload(payload):
-    return {"sequences": [run_sequence(s) for s in payload["sequences"]]}
+    return {"sequences": [run_sequence(s) for s in payload.get("sequences", [])],
+            "scales": [run_scale(c) for c in payload.get("scales", [])]}
 
 
 if __name__ == "__main__" and "C02_INLINE" not in globals():
